@@ -478,6 +478,12 @@ func (t *TS) execFn(fn *ssa.Function, args []AV, binds []AV, s *State) []outcome
 				}
 				if idx >= 0 && isTrackedType(phi.Type()) {
 					upd[phi] = t.eval(st, phi.Edges[idx])
+					// a status variable takes an error constant here: a refusal is decided on this path
+					if cst, isC := phi.Edges[idx].(*ssa.Const); isC && isNamedStatus(phi.Type()) {
+						if k, isk := constInt(cst); isk && k != 0 && strings.HasSuffix(phi.Type().String(), "Nfsstat3") {
+							st.G.Cells["$refusal"] = AV{K: KInt, I: k, Src: t.c.P.Pos(it.pred.Instrs[len(it.pred.Instrs)-1].Pos())}
+						}
+					}
 					if tag, ok := st.G.Cells[resKey(phi.Edges[idx], -1)]; ok {
 						st.G.Cells[resKey(phi, -1)] = tag
 					} else {
@@ -966,7 +972,10 @@ func (t *TS) step(s *State, in ssa.Instruction) []*State {
 					if v.K != KTop {
 						s.Env[x] = v
 					}
-				} else if _, isAlloc := rootAlloc(x.X); isAlloc || pa.K == KPtr {
+				} else if ra, isAlloc := rootAlloc(x.X); (isAlloc && !wholeStored(ra)) || (!isAlloc && pa.K == KPtr) {
+					// a local variable that was never assigned holds its zero value - but not one that was
+					// assigned as a whole (a struct parameter spilled into a cell: "*t0 = args"): its fields are
+					// whatever the caller passed
 					s.Env[x] = zeroAV(x.Type())
 				}
 			}
@@ -1063,6 +1072,46 @@ func (t *TS) step(s *State, in ssa.Instruction) []*State {
 		}
 	}
 	return []*State{s}
+}
+
+// wholeStored: the cell (or a struct/array inside it) is assigned as a whole somewhere - a store of a
+// value that is not a zero-value constant to the Alloc itself or to a field address whose type is a struct or
+// array; or its address escapes into a call.
+func wholeStored(al *ssa.Alloc) bool {
+	var visit func(addr ssa.Value, d int) bool
+	visit = func(addr ssa.Value, d int) bool {
+		if d > 4 {
+			return true
+		}
+		for _, r := range refs(addr) {
+			switch x := r.(type) {
+			case *ssa.Store:
+				if x.Addr != addr {
+					return true // the address itself is stored somewhere
+				}
+				switch derefType(addr.Type()).Underlying().(type) {
+				case *types.Struct, *types.Array:
+					if c, isC := x.Val.(*ssa.Const); isC && c.Value == nil {
+						continue // zero value
+					}
+					return true
+				}
+			case *ssa.FieldAddr:
+				switch derefType(x.Type()).Underlying().(type) {
+				case *types.Struct, *types.Array:
+					if visit(x, d+1) {
+						return true
+					}
+				}
+			case ssa.CallInstruction:
+				return true
+			case *ssa.MakeClosure:
+				return true
+			}
+		}
+		return false
+	}
+	return visit(al, 0)
 }
 
 func rootAlloc(addr ssa.Value) (*ssa.Alloc, bool) {
